@@ -17,15 +17,12 @@ theorem looperReset_pq (cfg : Cfg) : PQ (looperReset cfg) := by
 
 set_option maxHeartbeats 1000000 in
 theorem sendCommitRequest_q (cfg : Cfg) (d : Option Rat) (a : Option Nat) (x : Nat) (s : St) (h : QG x s) (hl : Live s)
-    (hcp : commitPending s.commitCall = false) (hds : s.commitDs ≠ []) : QG x (sendCommitRequest cfg d a s) := by
+    (hcp : commitPending s.commitCall = false) (hds : s.commitDs ≠ []) (hcr : s.commitReq = none)
+    (hlp : s.lastProcessed.isSome = true) : QG x (sendCommitRequest cfg d a s) := by
   unfold Live at hl
-  cases hcr : s.commitReq with
-  | some r =>
-    cases hcc : s.commitCall <;> simp only [sendCommitRequest, crash, hcc, hcr] <;> qg_leaf h
-  | none =>
-    cases hlp : s.lastProcessed with
-    | none => cases hcc : s.commitCall <;> simp only [sendCommitRequest, crash, hcc, hcr, hlp] <;> qg_leaf h
-    | some off => cases hcc : s.commitCall <;> simp only [sendCommitRequest, crash, hcc, hcr, hlp] <;> qg_leaf h
+  cases hlp' : s.lastProcessed with
+  | none => simp [hlp'] at hlp
+  | some off => cases hcc : s.commitCall <;> simp only [sendCommitRequest, hcc, hcr, hlp'] <;> qg_leaf h
 
 theorem handleAutoCommitError_pq (f : Fail) : PQ (handleAutoCommitError f) := by
   intro x s h; unfold handleAutoCommitError
@@ -41,6 +38,10 @@ theorem handleProcessorError_pq (f : Fail) : PQ (handleProcessorError f) := by
 theorem live_emit (o : Ob) (s : St) (hl : Live s) (ho : ∀ m, C13.qStep m (.ob o) = m) : Live (emit o s) := by
   unfold Live emit at *; simp only [runR_cons, ho]; exact hl
 
+theorem lp_of_guard (s : St) (hn : ¬(s.lastProcessed.isNone || s.lastProcessed == s.lastCommitted) = true) :
+    s.lastProcessed.isSome = true := by
+  cases hq : s.lastProcessed <;> simp_all
+
 /-- `commit()`'s effect, for a manual or automatic commit -/
 theorem commitState_q (cfg : Cfg) (who : Who) (hw : who ≠ .shut) (x : Nat) (s : St) (h : QG x s) (hl : Live s)
     (hst : s.stopping = false) : QG x (commitState cfg who s) := by
@@ -49,7 +50,9 @@ theorem commitState_q (cfg : Cfg) (who : Who) (hw : who ≠ .shut) (x : Nat) (s 
   · exact h
   · split
     · exact h
-    · split
+    · rename_i hn2
+      have hlp := lp_of_guard s hn2
+      split
       · cases who with
         | user => qg_leaf h
         | auto => qg_leaf h
@@ -67,6 +70,8 @@ theorem commitState_q (cfg : Cfg) (who : Who) (hw : who ≠ .shut) (x : Nat) (s 
         · exact hl
         · exact hd.2
         · simp
+        · exact hd.1
+        · exact hlp
 
 /-- `commit()`'s effect for `shutdown()`'s own commit, when it does wait for a commit: the continuation moves into
     `_commit_ds` -/
@@ -80,7 +85,9 @@ theorem commitState_shut_q (cfg : Cfg) (x : Nat) (s : St) (h : QG (x + 1) s) (hl
   · rename_i hg
     split
     · rename_i hn; simp [hg, hn] at hres
-    · split
+    · rename_i hn2
+      have hlp := lp_of_guard s hn2
+      split
       · qg_leaf h
       · rename_i hne
         have hemp : s.commitDs = [] := by simpa using hne
@@ -92,6 +99,8 @@ theorem commitState_shut_q (cfg : Cfg) (x : Nat) (s : St) (h : QG (x + 1) s) (hl
         · exact hl
         · exact hd.2
         · simp
+        · exact hd.1
+        · exact hlp
 
 theorem autoCommit_q (cfg : Cfg) (b : Bool) (x : Nat) (s : St) (h : QG x s) : QG x (autoCommit cfg b s) := by
   unfold autoCommit
@@ -104,6 +113,10 @@ theorem autoCommit_q (cfg : Cfg) (b : Bool) (x : Nat) (s : St) (h : QG x s) : QG
       | true => simp [hq] at hguard
     have hrun : s.startD ≠ .none := by
       intro hq; simp [hq] at hguard
+    have hlp : s.lastProcessed.isSome = true := by
+      cases hq : s.lastProcessed with
+      | some v => rfl
+      | none => simp [hq] at hguard
     have hl := live_of_run h hrun
     have hc := commitState_q cfg .auto (by decide) x s h hl hst
     simp only []
